@@ -199,15 +199,17 @@ const maxPacket = ssh.VerifC25MaxPacket
 
 const etmSuffix = "-etm@openssh.com"
 
-// classCBCIgnoresEtM is the class of the one framing defect this check pinpoints by
-// construction: with an "-etm" MAC the CBC packet cipher still produces RFC 4253
-// encrypt-and-MAC packets (length encrypted, MAC over the plaintext).
+// classCBCIgnoresEtM is an ordinary violation class (the defect it names was found by this
+// check in the pinned tree and has since been fixed in /repo, see known_findings.txt
+// "fixed:"): with an "-etm" MAC the CBC packet cipher produces RFC 4253 encrypt-and-MAC
+// packets (length encrypted, MAC over the plaintext). It is diagnosed separately from a
+// generic decode failure so that the report says exactly what the wire format is.
 const classCBCIgnoresEtM = "cbc cipher ignores EtM: packets under an -etm@openssh.com MAC are framed encrypt-and-MAC (length encrypted, MAC over plaintext)"
 
 // referenceFor returns the model codec for m. If the first written packet cannot be
 // decoded per specification but decodes under the encrypt-and-MAC reading of the same
-// HMAC, the precise class is reported and the encrypt-and-MAC model is used for the rest
-// of the sequence, so that every other check still runs for these modes.
+// HMAC, the precise class is reported (a VIOLATION) and the encrypt-and-MAC model is used
+// for the rest of the sequence, so that every other check still runs for these modes.
 func referenceFor(c *vf.Ctx, m mode, k keys, seq uint32, firstWire, firstPayload []byte) (*sshpkt.Codec, error) {
 	ref, err := sshpkt.New(m.cipher, m.mac, k.key, k.iv, k.macKey)
 	if err != nil {
